@@ -192,8 +192,22 @@ def run(shard, rec):
 
         async def opd(mpc, S, X, pid):
             x, y = sh(mpc, S, a, pid), sh(mpc, S, b, pid)
-            return [await mpc.output(x @ x), await mpc.output(x @ ~x), await mpc.output(x @ S.identity), await mpc.output(S.identity @ y), await mpc.output(x @ a), await mpc.output(~b @ y)]
-        world_run('operation-special-operands', opd, [a @ a, e, a, b, a @ a, e], key + ['op-special'], nt, extra={'degenerate_operands': True})
+            z = sh(mpc, S, e, pid)                      # a shared identity element
+            return [await mpc.output(x @ x), await mpc.output(x @ ~x), await mpc.output(x @ S.identity), await mpc.output(S.identity @ y), await mpc.output(x @ a), await mpc.output(~b @ y),
+                    await mpc.output(z), await mpc.output(z @ x), await mpc.output(~z)]
+        world_run('operation-special-operands', opd, [a @ a, e, a, b, a @ a, e, e, a, e], key + ['op-special'], nt, extra={'degenerate_operands': True})
+
+        async def eqd(mpc, S, X, pid):
+            x, y = sh(mpc, S, a, pid), sh(mpc, S, b, pid)
+            z = sh(mpc, S, e, pid)
+            return [await mpc.output(z == S.identity), await mpc.output(x == z), await mpc.output(z != y), await mpc.output(z == e), await mpc.output(x == e), await mpc.output(z == z)]
+        async def eqc(mpc, S, X, pid):
+            x, y = sh(mpc, S, a, pid), sh(mpc, S, b, pid)
+            i1, i2 = x @ ~x, ~y @ y                       # the identity reached by computation (its representation need not be the canonical one)
+            return [await mpc.output(i1 == S.identity), await mpc.output(i1 == i2), await mpc.output(i1 != i2), await mpc.output(i2 == e), await mpc.output(i1 == x), await mpc.output((i1 @ y) == y)]
+        world_run('equality-of-computed-identity', eqc, [True, True, False, True, a == e, True], key + ['eq-computed-identity'], nt, extra={'degenerate_operands': True, 'identity_operand': True})
+
+        world_run('equality-with-identity', eqd, [True, a == e, b != e, True, a == e, True], key + ['eq-identity'], nt, extra={'degenerate_operands': False, 'identity_operand': True})
 
         if G.is_additive or G.is_multiplicative:
             async def alias(mpc, S, X, pid):
